@@ -148,7 +148,10 @@ class Machine:
                     rc = L.resolve(cur)
                     if rc.k == 'struct':
                         coff += L.field_offset(rc, iv[1]); cur = rc.a[iv[1]]; continue
-                    bound = rc.a if (rc.k == 'array' and inb) else None
+                    # byte arrays are raw storage (aligned_storage, char buffers): the optimiser itself forms
+                    # getelementptrs far beyond their nominal bound when it folds pointer arithmetic, so only
+                    # arrays of wider elements are checked
+                    bound = rc.a if (rc.k == 'array' and inb and L.size(rc.b) > 1) else None
                     cur = rc.b
                 else:
                     bound = None
